@@ -730,23 +730,12 @@ func init() {
 				}
 				n++
 				arg := site.Common().Args[0]
-				// guarded by a comparison of the argument's first byte with a constant
+				// guarded by a test of the argument's first byte (compared with constants, looked up in a
+				// constant set, handed to a classifier) or of a constant prefix
 				guarded := false
 				for _, g := range controllingIfs(site) {
-					for _, leaf := range condLeaves(g.If.Cond) {
-						var idx, base ssa.Value
-						switch x := leaf.(type) {
-						case *ssa.Lookup:
-							idx, base = x.Index, x.X
-						case *ssa.Index:
-							idx, base = x.Index, x.X
-						}
-						if idx == nil {
-							continue
-						}
-						if i, ok := constInt(idx); ok && i == 0 && (base == arg || sameValue(base, arg)) {
-							guarded = true
-						}
+					if looksAtFirstByte(g.If.Cond, arg, 0) && firstByteDigitTested(site, arg) {
+						guarded = true
 					}
 				}
 				c.check(guarded, fmt.Sprintf("resolveArgument: %s#%d only on number-shaped text", nm, n), p.instrPos(site), "guarded by a test of the first byte", nm+" is offered every argument before the variable lookup: it also reads identifier-shaped words ("+map[string]string{"strconv.ParseBool": "t, f, T, F, True, FALSE", "strconv.ParseFloat": "inf, infinity, nan"}[nm]+"), so a variable of such a name is replaced by a literal")
@@ -756,6 +745,124 @@ func init() {
 			}
 		},
 	})
+}
+
+// looksAtFirstByte: somewhere in the expression tree of cond the first byte of s is read (s[0], s[:1],
+// a range/decode of the first rune) or s is tested for a prefix — directly, as an operand of a comparison,
+// or as an argument of a call (strings.IndexByte("0123456789+-.", s[0]) >= 0, unicode.IsDigit(rune(s[0]))).
+func looksAtFirstByte(cond, s ssa.Value, depth int) bool {
+	if cond == nil || depth > 6 {
+		return false
+	}
+	is := func(v ssa.Value) bool { return v == s || sameValue(v, s) }
+	switch x := cond.(type) {
+	case *ssa.Lookup:
+		if i, ok := constInt(x.Index); ok && i == 0 && is(x.X) {
+			return true
+		}
+	case *ssa.Index:
+		if i, ok := constInt(x.Index); ok && i == 0 && is(x.X) {
+			return true
+		}
+	case *ssa.Slice:
+		if is(x.X) && (x.Low == nil || func() bool { i, ok := constInt(x.Low); return ok && i == 0 }()) && x.High != nil {
+			if i, ok := constInt(x.High); ok && i == 1 {
+				return true
+			}
+		}
+	case *ssa.BinOp:
+		return looksAtFirstByte(x.X, s, depth+1) || looksAtFirstByte(x.Y, s, depth+1)
+	case *ssa.UnOp:
+		return looksAtFirstByte(x.X, s, depth+1)
+	case *ssa.Convert:
+		return looksAtFirstByte(x.X, s, depth+1)
+	case *ssa.ChangeType:
+		return looksAtFirstByte(x.X, s, depth+1)
+	case *ssa.Phi:
+		for _, e := range x.Edges {
+			if looksAtFirstByte(e, s, depth+1) {
+				return true
+			}
+		}
+	case *ssa.Extract:
+		return looksAtFirstByte(x.Tuple, s, depth+1)
+	case *ssa.Call:
+		nm := calleeName(&x.Call)
+		if (nm == "strings.HasPrefix" || nm == "strings.CutPrefix") && len(x.Call.Args) == 2 && is(x.Call.Args[0]) {
+			if _, ok := constString(x.Call.Args[1]); ok {
+				return true
+			}
+		}
+		if nm == "unicode/utf8.DecodeRuneInString" && len(x.Call.Args) == 1 && is(x.Call.Args[0]) {
+			return true
+		}
+		for _, a := range x.Call.Args {
+			if looksAtFirstByte(a, s, depth+1) {
+				return true
+			}
+		}
+	}
+	return false
+}
+
+// firstByteDigitTested: on the way to the call some test of the first byte of s compares it with a digit (the
+// tests of an `a || b || c` chain control the call only together; it is enough that one of them, from which
+// the call can be reached, is about digits).
+func firstByteDigitTested(site ssa.Instruction, s ssa.Value) bool {
+	found := false
+	eachInstr(site.Parent(), func(in ssa.Instruction) {
+		ifi, ok := in.(*ssa.If)
+		if !ok || found {
+			return
+		}
+		if looksAtFirstByte(ifi.Cond, s, 0) && mentionsDigit(ifi.Cond, 0) && (ifi.Block() == site.Block() || blocksAfter(ifi.Block())[site.Block()]) {
+			found = true
+		}
+	})
+	return found
+}
+
+// mentionsDigit: the condition compares something with a digit character (a bound of the range '0'..'9'),
+// looks something up in a constant set that contains digits, or asks unicode.IsDigit / IsNumber — what tells
+// a `number-shaped` guard from a test for a quote or a bracket.
+func mentionsDigit(cond ssa.Value, depth int) bool {
+	if cond == nil || depth > 6 {
+		return false
+	}
+	switch x := cond.(type) {
+	case *ssa.Const:
+		if k, ok := constInt(x); ok && k >= '0' && k <= '9' {
+			return true
+		}
+		if s, ok := constString(x); ok && strings.ContainsAny(s, "0123456789") {
+			return true
+		}
+	case *ssa.BinOp:
+		return mentionsDigit(x.X, depth+1) || mentionsDigit(x.Y, depth+1)
+	case *ssa.UnOp:
+		return mentionsDigit(x.X, depth+1)
+	case *ssa.Convert:
+		return mentionsDigit(x.X, depth+1)
+	case *ssa.Phi:
+		for _, e := range x.Edges {
+			if mentionsDigit(e, depth+1) {
+				return true
+			}
+		}
+	case *ssa.Extract:
+		return mentionsDigit(x.Tuple, depth+1)
+	case *ssa.Call:
+		nm := calleeName(&x.Call)
+		if nm == "unicode.IsDigit" || nm == "unicode.IsNumber" {
+			return true
+		}
+		for _, a := range x.Call.Args {
+			if mentionsDigit(a, depth+1) {
+				return true
+			}
+		}
+	}
+	return false
 }
 
 func init() {
@@ -1182,7 +1289,7 @@ func init() {
 
 func init() {
 	register(&Rule{
-		ID: "C17.R10", Props: []string{"C17", "C03", "C11", "C08", "C09", "C10"}, Min: 1, // C09/C10: Copy() is built on EnvMap — a shared map is shared between requests
+		ID: "C17.R10", Props: []string{"C17", "C03", "C11", "C08", "C09", "C10", "C05"}, Min: 1, // C09/C10: Copy() is built on EnvMap — a shared map is shared between requests
 		Doc: "the merged environment holds every binding, whatever its value: in Stack.EnvMap the copy of a scope's entries into the result is decided by the iteration alone — no condition on the value (nil, zero, type) stands before the store. A binding that is left out no longer shadows an outer one: v-if / v-show / :class (which read the environment) then see the outer value while {{ }} and bound attributes (which use Lookup) see the inner one, and the nil that hides inherited slot content from itself stops hiding it",
 		Run: func(p *Prog, c *Ctx) {
 			fn := p.MustFn("(*vuego.Stack).EnvMap")
